@@ -10,7 +10,7 @@ from typing import Dict, List, Optional, Tuple
 from ..cfg import cfg_of
 from ..model import AnalysisError, FunctionInfo, bind_args
 from ..roles import roles_of
-from ..terms import call_name, canon, cmp_normal, conjuncts, const_num, const_str, guard_of, norm_stmt, state_key
+from ..terms import call_name, canon, cmp_normal, conjuncts, const_num, const_str, guard_canon, guard_of, norm_stmt, state_key
 from .common import attr_stores, int_le_form, iter_stores, key_stores, reaching_assignments, self_attr_of, store_base
 
 EXPLANATION = (
@@ -144,15 +144,37 @@ def check(ctx):
                     loops.append(node)
         for lp in loops:
             if isinstance(lp, ast.For):
+                from .common import deref_expr
+
                 it = lp.iter
                 okf, why = False, canon(it)
-                if call_name(it) == "range" and len(it.args) == 1:
+
+                def filtered_set(name_node) -> bool:
+                    """every definition of the local reaching the loop is a call of the candidate filter."""
+                    defs = reaching_assignments(prog, fn, name_node.id, lp)
+                    return bool(defs) and all(isinstance(d, ast.Call) and any(t is R.filter_fn for t in prog.resolve_call(fn, d) if isinstance(t, FunctionInfo)) for d in defs)
+
+                if isinstance(it, ast.Name) and filtered_set(it):
+                    okf, why = True, "initial design: iteration over the rows of <filtered set>"
+                elif call_name(it) == "range" and len(it.args) == 1:
                     a = it.args[0]
-                    if call_name(a) == "len" and a.args and isinstance(a.args[0], ast.Name):
-                        defs = reaching_assignments(prog, fn, a.args[0].id, lp)
-                        okf = bool(defs) and all(isinstance(d, ast.Call) and any(t is R.filter_fn for t in prog.resolve_call(fn, d) if isinstance(t, FunctionInfo)) for d in defs)
+                    a_full = a
+                    for _ in range(3):  # n = len(u1); for i in range(n)
+                        if isinstance(a_full, ast.Name):
+                            dd = reaching_assignments(prog, fn, a_full.id, lp)
+                            if len(dd) == 1:
+                                a_full = dd[0]
+                                continue
+                        break
+                    inner = None
+                    if call_name(a_full) == "len" and a_full.args and isinstance(a_full.args[0], ast.Name):
+                        inner = a_full.args[0]
+                    elif isinstance(a_full, ast.Subscript) and isinstance(a_full.value, ast.Attribute) and a_full.value.attr == "shape" and isinstance(a_full.value.value, ast.Name) and const_num(a_full.slice) == 0:
+                        inner = a_full.value.value
+                    if inner is not None:
+                        okf = filtered_set(inner)
                         why = "initial design: range(len(<filtered set>))"
-                    elif canon(a) == "OPT[noise_final_samples]":
+                    elif canon(a_full) == "OPT[noise_final_samples]":
                         okf, why = True, "final sampling: range(options['noise_final_samples'])"
                 ctx.check(okf, fn, lp, why, f"an evaluating for-loop iterates over {canon(it)}, which is neither the filtered initial design nor the reserved final samples: the evaluation budget can be exceeded", construct=f"evaluating for over {canon(it)}")
                 continue
@@ -198,8 +220,19 @@ def check(ctx):
             else:
                 ctx.ok(fn, tail, f"unconditional tail test func_count >= max_fun_evals sets {flag}")
             # the flag is only set to True inside the loop
+            true_nodes = {cfg.node_of(s_).id for t_, v_, s_, k_ in iter_stores(lp) if isinstance(t_, ast.Name) and t_.id == flag and isinstance(v_, ast.Constant) and v_.value is True and cfg.node_of(s_) is not None}
             for t, v, s, k in iter_stores(lp):
                 if isinstance(t, ast.Name) and t.id == flag:
+                    if isinstance(v, ast.Constant) and v.value is False:
+                        # harmless when the flag is known to be False there: the loop test holds at the body entry and no
+                        # 'flag = True' can execute between the body entry and this store
+                        sn_ = cfg.node_of(s)
+                        tainted = set()
+                        for tn_ in true_nodes:
+                            tainted |= cfg.reachable(tn_, avoiding={hdr.id})
+                        if sn_ is not None and sn_.id not in tainted:
+                            ctx.ok(fn, s, f"{flag} = False where it is False already (start of the stopping tests)")
+                            continue
                     ctx.check(isinstance(v, ast.Constant) and v.value is True, fn, s, f"{flag} only set to True in the loop", f"the exit flag {flag} can be reset inside the loop", construct=f"{flag} <- {canon(v)}")
 
     # ------------------------------------------------------------------ R4
@@ -219,6 +252,26 @@ def check(ctx):
         ctx.fail(opt, opt.node, "the final re-sampling of noisy targets is not reserved from the budget: options['max_fun_evals'] is never reduced", construct="<missing final-sample reserve>")
     else:
         stmts = sorted([s for fn, t, v, s, k in nfs + mx if fn is host], key=lambda s_: s_.lineno)
+        # locals the stores are computed from (n = min(a, b); options[..] = n): their assignments in the same block,
+        # by backward closure over the names used
+        blk = None
+        for p_ in prog.ancestors(stmts[0]):
+            for fld in ("body", "orelse"):
+                b_ = getattr(p_, fld, None)
+                if isinstance(b_, list) and any(x is stmts[0] for x in b_):
+                    blk = b_
+            if blk is not None:
+                break
+        if blk is not None:
+            need = {n.id for s_ in stmts for n in ast.walk(s_) if isinstance(n, ast.Name) and isinstance(n.ctx, ast.Load)}
+            extra = []
+            last_ln = max(s_.lineno for s_ in stmts)
+            for s_ in reversed([x for x in blk if isinstance(x, ast.Assign) and x.lineno <= last_ln and not any(x is y for y in stmts)]):
+                tg = [t.id for t in s_.targets if isinstance(t, ast.Name)]
+                if tg and set(tg) & need:
+                    extra.append(s_)
+                    need |= {n.id for n in ast.walk(s_.value) if isinstance(n, ast.Name)}
+            stmts = sorted(stmts + extra, key=lambda s_: s_.lineno)
         try:
             tr = Translator(positive=["OPT[noise_final_samples]", "OPT[max_fun_evals]", "LOG.func_count"])
             M, N, C = tr.sym("OPT[max_fun_evals]"), tr.sym("OPT[noise_final_samples]"), tr.sym("LOG.func_count")
@@ -258,7 +311,7 @@ def check(ctx):
         except Untranslatable as e:
             ctx.undecided(f"reserve arithmetic uses a construct the term translator does not know ({e})")
         for s_ in stmts:
-            g = [canon(c, neg=not p) for c, p in guard_of(prog, host, s_)]
+            g = guard_canon(prog, host, s_)
             ctx.check(any("OS[uncertainty_handling_level]" in x for x in g), host, s_, "reserve only in noisy mode", "the reserve is not tied to the (possibly auto-detected) noisy mode held in optim_state['uncertainty_handling_level']", construct="reserve guard")
         # the guard must see the *detected* noise level: nothing that can still raise the level may run after the reserve
         writers = {fn for fn, t, v, s2_, k in key_stores(prog, "OS", "uncertainty_handling_level") if fn.cls is R.bads and fn.name != "__init__" and fn is not R.init_optim_state}
@@ -385,8 +438,18 @@ def check(ctx):
             if name not in seen:
                 ctx.fail(opt, main, f"the {name} stopping condition sets no termination message", construct=f"<missing message for {name}>")
         # stored after the last message assignment in the body
-        last_msg = max((s.lineno for t, v, s, k in iter_stores(main) if isinstance(t, ast.Name) and t.id == msg_var), default=0)
-        ctx.check(tm_store.lineno > last_msg, opt, tm_store, "termination_msg stored after all stopping tests", "optim_state['termination_msg'] is stored before a later stopping test can change the message", construct="termination_msg store order")
+        # (CFG order, not line numbers: statements inlined from a helper keep the helper's line numbers)
+        hdr_main = cfgo.head_of(main)
+        tmn = cfgo.node_of(tm_store)
+        later = False
+        if tmn is not None and hdr_main is not None:
+            after = cfgo.reachable(tmn.id, avoiding={hdr_main.id}) - {tmn.id}
+            for t, v, s, k in iter_stores(main):
+                if isinstance(t, ast.Name) and t.id == msg_var:
+                    n_ = cfgo.node_of(s)
+                    if n_ is not None and n_.id in after:
+                        later = True
+        ctx.check(not later, opt, tm_store, "termination_msg stored after all stopping tests", "optim_state['termination_msg'] is stored before a later stopping test can change the message", construct="termination_msg stored early")
     ctx.assume("implicit exceptions are not modelled; the user's target and constraint functions terminate")
     ctx.assume("liveness (a search spree implies evaluations) is value dependent and not decided; R3-R5 are its necessary conditions")
 
